@@ -111,6 +111,19 @@ def returnSites (ir : IR) (f : Nat) : List Nat :=
       | _, _ => none
     else none)).eraseDups
 
+/-- proxies that stand for the return site of a call into `f` (the return site was deleted with
+`retarget_to_proxy`: the call falls through to the proxy, and the function returns there) -/
+def proxyReturnSites (ir : IR) (f : Nat) : List Nat :=
+  (ir.cfg.filterMap (fun e =>
+    if Edge.isCall e then
+      match e.src, e.dst with
+      | .block c, .block t =>
+        if funcOf ir t == some f then
+          ((ir.outEdges c).filterMap (fun x => if Edge.isFall x then (match x.dst with | .proxy p => some p | .block _ => none) else none)).head?
+        else none
+      | _, _ => none
+    else none)).eraseDups
+
 def sameSet (a b : List Nat) : Bool := a.all b.contains && b.all a.contains
 
 def checkBlock (ir : IR) (nop : List Nat) (freshProxyOk : Nat → Bool) (b : Block) (ins : List Insn) : List Issue :=
@@ -196,7 +209,8 @@ def checkBlock (ir : IR) (nop : List Nat) (freshProxyOk : Nat → Bool) (b : Blo
           else if toProxies.isEmpty then [mk "return-missing" "a return without return edge"] else []
         else
           (if sameSet toBlocks sites then [] else [mk "return-sites" s!"returns to {toBlocks}, the calls of its function return to {sites}"]) ++
-          (if toProxies.isEmpty then [] else [mk "return-proxy" "returns to a proxy although its function is called"])
+          (if toProxies.all (fun e => match e.dst with | .proxy p => (proxyReturnSites ir f).contains p | .block _ => false) then []
+           else [mk "return-proxy" "returns to a proxy although its function is called"])
   buried ++ tiles ++ fallIssues ++ transferIssues ++ retIssues
 
 /-- **C03**: the CFG is the control flow of the listing -/
